@@ -13,7 +13,7 @@ TRUSTED = [
     "runtime behaviour of extreme durations on real sockets / ureq is exercised here only through set_read_timeout / set_write_timeout (partial)",
 ]
 RULE = ("(read, write, connect) in {None, 0, 1 ns, 1 ms, 1 s, u64::MAX s}^3 x retries in {0, 1, 2, usize::MAX-1, usize::MAX} x construction path {new, Default, clap flags, serde}, "
-        "clap flag texts from {absent, 0, 00, +0, 1, +7, 4, 18446744073709551615, 18446744073709551616, empty, x, 1.5, ' 3'}; each accepted setting is then used for a Valve query on a valid reply script "
+        "clap flag texts from {absent, 0, 00, +0, 1, +7, 4, 18446744073709551615, 18446744073709551616, empty, x, 1.5, ' 3'}; each accepted setting is then used for a Valve query on a valid reply script, those with an extreme duration also by an HTTP-based query (Eco) against a closed port "
         "(and, for small retry counts, on a silent one; for the largest counts also on a script whose first attempt times out or fails to send); non-trivial = a zero duration or an extreme value is involved; distinct by case bytes")
 
 DURS = [None, (0, 0), (0, 1), (0, 1000000), (1, 0), (18446744073709551615, 0), (18446744073709551615, 999999999)]
@@ -72,6 +72,12 @@ def gen_cases(tier, rng):
                        + (bytes([1]) + (0).to_bytes(2, "big") if fault == "sendfail" else b"\x00")).hex()
             cases.append({"id": "retry-%s/%d" % (fault, retries), "hex": hexcase,
                           "meta": {"stream": "new", "expect": "accept", "valid": True, "extreme": True}})
+    # accepted settings used by an HTTP-based query (Eco, against a port nobody listens on): the client must be built and the query must return
+    for rd, wr, co in itertools.product(DURS, repeat=3):
+        if expect([rd, wr, co]) == "accept" and any(d is not None and d[0] > 1 for d in (rd, wr, co)) or (rd, wr, co) in (((1, 0),) * 3, (None, None, None)):
+            hexcase = (bytes([53]) + enc_dur(rd) + enc_dur(wr) + enc_dur(co) + (0).to_bytes(8, "big")).hex()
+            cases.append({"id": "http/%d" % n, "hex": hexcase, "meta": {"stream": "http-client", "expect": "accept", "valid": False, "extreme": True, "http": True}})
+            n += 1
     cases.append({"id": "default", "hex": settings_case(bytes([1]), port, valid), "meta": {"stream": "default", "expect": "accept", "valid": True, "extreme": False}})
     texts = TEXTS if tier != "quick" else TEXTS
     for c, rdt, wrt in itertools.product(texts, repeat=3):
@@ -102,6 +108,10 @@ def oracle(case, impl, side):
     if "PANIC" in impl or impl == "ABORT":
         loc = side.split("panicked at ")[-1].split(":")[0] if "panicked at " in side else "?"
         return ("panic:" + loc, "an accepted configuration panicked when used (%s): %s" % (side[:200], impl[:120]))
+    if m.get("http"):
+        if not impl.startswith("Ok(settings);Err("):
+            return ("http-client", "accepted settings used by an HTTP query against a closed port: %s" % impl[:200])
+        return None
     head = impl.split(";", 1)[0]
     if m["expect"] == "reject":
         if not head.startswith("Err(InvalidInput"):
